@@ -171,6 +171,11 @@
         { unimplemented!() }
         #[verifier::external_body]
         pub fn is_empty(&self) -> (r: bool) ensures r == (self.entries().len() == 0) { unimplemented!() }
+        /// N9: `get_all(name).into_iter().last().cloned()`
+        #[verifier::external_body]
+        pub fn last_value_of(&self, name: &str) -> (r: Option<HeaderValue>)
+            ensures match last_value(self.entries(), lower(crate::str_bytes(name))) { Some(v) => r is Some && r->Some_0.view() == v, None => r is None }
+        { unimplemented!() }
         /// `insert` replaces every field of that name by the one given
         #[verifier::external_body]
         pub fn insert(&mut self, name: &'static str, value: HeaderValue) -> (r: Option<HeaderValue>)
@@ -193,6 +198,24 @@
         pub struct Scheme { _p: () }
         impl Scheme {
             pub uninterp spec fn view(&self) -> Seq<u8>;
+            /// the `https` scheme
+            pub uninterp spec fn https_bytes() -> Seq<u8>;
+            #[verifier::external_body]
+            pub fn https() -> (r: &'static Scheme) ensures r.view() == Self::https_bytes() { unimplemented!() }
+        }
+        /// N9: `==` on Option<&Scheme> / Option<&str> (derived / std PartialEq: equal iff both absent or same text)
+        #[verifier::external_body]
+        pub fn opt_scheme_eq(a: Option<&Scheme>, b: Option<&Scheme>) -> (r: bool)
+            ensures r == (match (a, b) { (Some(x), Some(y)) => x.view() == y.view(), (None, None) => true, _ => false })
+        { unimplemented!() }
+        #[verifier::external_body]
+        pub fn opt_str_eq(a: Option<&str>, b: Option<&str>) -> (r: bool)
+            ensures r == (match (a, b) { (Some(x), Some(y)) => crate::str_bytes(x) == crate::str_bytes(y), (None, None) => true, _ => false })
+        { unimplemented!() }
+        impl Authority {
+            pub uninterp spec fn host_view(&self) -> Seq<u8>;
+            #[verifier::external_body]
+            pub fn host(&self) -> (r: &str) ensures crate::str_bytes(r) == self.host_view() { unimplemented!() }
         }
         #[verifier::external_body]
         #[derive(Debug)]
@@ -219,6 +242,14 @@
         #[verifier::external_body]
         pub fn host(&self) -> (r: Option<&str>)
             ensures match self.spec_host() { Some(h) => r is Some && crate::str_bytes(r->Some_0) == h, None => r is None }
+        { unimplemented!() }
+        #[verifier::external_body]
+        pub fn authority(&self) -> (r: Option<&uri::Authority>)
+            ensures match self.spec_host() { Some(h) => r is Some && r->Some_0.host_view() == h, None => r is None }
+        { unimplemented!() }
+        #[verifier::external_body]
+        pub fn scheme(&self) -> (r: Option<&uri::Scheme>)
+            ensures match self.spec_scheme() { Some(s) => r is Some && r->Some_0.view() == s, None => r is None }
         { unimplemented!() }
         #[verifier::external_body]
         pub fn path_and_query(&self) -> (r: Option<&uri::PathAndQuery>)
